@@ -1,4 +1,5 @@
 import Gtree.Lemmas.SourceRefines
+import Gtree.Lemmas.MalformedIff
 import Gtree.Lemmas.Names
 import Gtree.Lemmas.Build
 import Gtree.Lemmas.ParseDoc
@@ -404,4 +405,79 @@ theorem C02_error_mapping_is_the_source (g : Src.nodeGenerator) (row : Bytes) :
     Src.nodeGenerator.handleErr g (some (errSrc .incorrect)) row = gerrSrc (.format row) ∧
     Src.nodeGenerator.handleErr g (some (errSrc .blank)) row = none :=
   handleErr_src g row
+end Gtree
+
+namespace Gtree
+
+/-- **C02, "a non-nil error if and only if some line is malformed", as one statement.**
+    For EVERY document (any bytes) read from a reader that does not fail: the error the generator returns is
+    determined by the first malformed row in the sense of `Spec/Malformed.lean` — the declarative reading of the
+    property's five classes (no bullet after the indentation, empty item text, indentation that mixes blanks / is in
+    the other blank / is not a whole multiple of the unit, nested more than one level deeper, item before the first
+    root): a format error naming that row for the classes noBullet, badIndent and jump, `empty text` for emptyText,
+    `nil stack` for orphan; and when no row is malformed, no error at all (unless a row exceeds the scanner's
+    token limit, which is the scanner's error). -/
+theorem C02_error_iff_malformed (doc : Bytes) :
+    (generate { doc := doc }).err =
+      match firstMalformed {} (scanLines doc).rows with
+      | some x => some (toGErr x)
+      | none => if (scanLines doc).tooLong then some .tooLong else none := by
+  have h := genRows_firstMalformed (scanLines doc).rows {} {} rel_init
+  unfold generate generateFrom
+  cases hg : genRows {} (scanLines doc).rows with
+  | mk g' e =>
+    rw [hg] at h
+    simp only at h
+    cases hf : firstMalformed {} (scanLines doc).rows with
+    | none =>
+      rw [hf] at h
+      simp only [Option.map_none] at h
+      subst h
+      simp only [hg]
+      cases (scanLines doc).tooLong <;> simp
+    | some x =>
+      rw [hf] at h
+      simp only [Option.map_some] at h
+      subst h
+      simp [hg]
+
+/-- the iff itself: generation fails (for a document whose rows fit the scanner) exactly when some row is malformed -/
+theorem C02_rejected_iff_malformed (doc : Bytes) (hlong : (scanLines doc).tooLong = false) :
+    (generate { doc := doc }).err ≠ none ↔ Malformed (scanLines doc).rows := by
+  rw [C02_error_iff_malformed doc, hlong]
+  unfold Malformed
+  cases firstMalformed {} (scanLines doc).rows <;> simp
+
+/-- a format error names the first malformed row -/
+theorem C02_format_error_is_first_malformed (doc : Bytes) (row : Bytes)
+    (h : (generate { doc := doc }).err = some (.format row)) :
+    ∃ m, firstMalformed {} (scanLines doc).rows = some (row, m) ∧ (m = .noBullet ∨ m = .badIndent ∨ m = .jump) := by
+  rw [C02_error_iff_malformed doc] at h
+  cases hf : firstMalformed {} (scanLines doc).rows with
+  | none =>
+    rw [hf] at h
+    simp only at h
+    split at h <;> simp at h
+  | some x =>
+    rw [hf] at h
+    obtain ⟨r, m⟩ := x
+    cases m <;> simp [toGErr] at h
+    · exact ⟨_, by rw [h], Or.inl rfl⟩
+    · exact ⟨_, by rw [h], Or.inr (Or.inl rfl)⟩
+    · exact ⟨_, by rw [h], Or.inr (Or.inr rfl)⟩
+
+/-! Non-vacuity: each class occurs, and a well-formed document has no malformed row.
+    Rows: "- a" = 2D 20 61, "  - b" = 20 20 2D 20 62, "\t- c" = 09 2D 20 63. -/
+example : firstMalformed {} [[0x2D, 0x20, 0x61], [0x20, 0x20, 0x2D, 0x20, 0x62], [0x2D, 0x20, 0x63]] = none := by decide
+example : firstMalformed {} [[0x2D, 0x20, 0x61], [0x20, 0x20, 0x62]] = some ([0x20, 0x20, 0x62], .noBullet) := by decide
+example : firstMalformed {} [[0x2D, 0x20, 0x61], [0x20, 0x20, 0x2D, 0x20]] = some ([0x20, 0x20, 0x2D, 0x20], .emptyText) := by decide
+example : firstMalformed {} [[0x2D, 0x20, 0x61], [0x20, 0x20, 0x2D, 0x20, 0x62], [0x20, 0x20, 0x20, 0x2D, 0x20, 0x63]]
+    = some ([0x20, 0x20, 0x20, 0x2D, 0x20, 0x63], .badIndent) := by decide
+example : firstMalformed {} [[0x2D, 0x20, 0x61], [0x20, 0x20, 0x2D, 0x20, 0x62], [0x09, 0x2D, 0x20, 0x63]]
+    = some ([0x09, 0x2D, 0x20, 0x63], .badIndent) := by decide
+example : firstMalformed {} [[0x2D, 0x20, 0x61], [0x20, 0x09, 0x2D, 0x20, 0x62]] = some ([0x20, 0x09, 0x2D, 0x20, 0x62], .badIndent) := by decide
+example : firstMalformed {} [[0x2D, 0x20, 0x61], [0x20, 0x20, 0x2D, 0x20, 0x62], [0x20, 0x20, 0x20, 0x20, 0x20, 0x20, 0x2D, 0x20, 0x63]]
+    = some ([0x20, 0x20, 0x20, 0x20, 0x20, 0x20, 0x2D, 0x20, 0x63], .jump) := by decide
+example : firstMalformed {} [[0x20, 0x20, 0x2D, 0x20, 0x62]] = some ([0x20, 0x20, 0x2D, 0x20, 0x62], .orphan) := by decide
+
 end Gtree
